@@ -157,6 +157,43 @@ def _write_records(vrl, bodies, chunk):
             pass
 
 
+def replay_sized(p):
+    """Two records handed over as a SizedGenerator with an arbitrary declared length: the file holds both."""
+    _quiet()
+    from dliswriter.file.writer import DLISWriter
+    from dliswriter.logical_record.misc.storage_unit_label import StorageUnitLabel
+    from dliswriter.utils.internal.sized_generator import SizedGenerator
+    vrl, n1, n2, _a, declared = p['args'][:5]
+    cap = vrl - 8
+    bodies = []
+    rnd = random.Random(7)
+    for k, n in enumerate((n1, n2)):
+        L = max(1, cap * n - 3) if n else 1
+        bodies.append((bytes(rnd.randrange(256) for _ in range(L)), k, k == 0))
+    path = fresh_tmp()
+    bad = ''
+    try:
+        w = DLISWriter(path, vrl)
+        w.write_storage_unit_label(StorageUnitLabel('SET', 1, vrl))
+        recs = [_Rec(b, t, e) for (b, t, e) in bodies]
+        w.write_logical_records(SizedGenerator((r for r in recs), declared), 65536)
+        data = open(path, 'rb').read()
+        sul, vrs, segs = strict.parse_physical(data)
+        got = strict.assemble(segs)
+        if [(r.is_eflr, r.type, r.body) for r in got] != [(e, t, b) for (b, t, e) in bodies]:
+            bad = f'{len(got)} records in the file, {len(bodies)} were handed to the writer (declared length {declared})'
+    except strict.StrictError as e:
+        bad = f'strict reader: {e}'
+    except Exception as e:
+        bad = f'write raised {type(e).__name__}: {e}'
+    finally:
+        try:
+            os.remove(path)
+        except OSError:
+            pass
+    return _res(bad, {'vrl': vrl, 'declared': declared, 'records': 2})
+
+
 def replay_glue(p):
     _quiet()
     a = p['args']
